@@ -18,7 +18,16 @@ POPS = [
     ["only.log"],
     [".h1", ".h2"],
     ["a", "aa", "aaa", "b", "sub/a", "sub2/a", "sub2/b"],
+    # matches two and more levels down, hidden entries at every level
+    ["top.c", "sub/deep/k.c", "sub/deep/.m.c", "sub/deep/j.h", "sub/deep/more/z.c", "sub/.hd/k.c", "sub/other/k.c",
+     "sub/other/.k.c", "sub/plain.c", ".hd/deep/k.c"],
 ]
+DEEP = 5
+DEEP_PATTERNS = ["sub/deep/*", "sub/deep/*.c", "sub/*/*.c", "sub/*/k.c", "*/*/*", "*/deep/*.c", "sub/deep/*/z.c", "sub/*/*/*",
+                 "*/*/k*", "sub/other/*", "s*/d*/*", "ABS/sub/deep/*", "ABS/sub/*/k.c", "ABS/*.c", "~/hd/deep/*", "~/hd/*/*.c", "~/*/deep/*",
+                 # a hidden directory that is written out (only a wildcard does not match a leading dot)
+                 "sub/.hd/*", ".hd/deep/*", ".hd/*/k.c", "ABS/sub/.hd/*", "~/hd/.x/*", "sub/.hd/*.c"]
+HOME_POP = ["hd/deep/p.c", "hd/deep/.q.c", "hd/.x/r.c", "hd/other/s.c"]
 
 
 def _init(cicada):
@@ -32,6 +41,11 @@ def populate(sb, pop):
         full = os.path.join(sb.work, p)
         os.makedirs(os.path.dirname(full), exist_ok=True)
         open(full, "w").close()
+    for p in HOME_POP:
+        full = os.path.join(sb.home, p)
+        if not os.path.exists(full):
+            os.makedirs(os.path.dirname(full), exist_ok=True)
+            open(full, "w").close()
 
 
 # ------------------------------------------------------------ reference
@@ -104,6 +118,10 @@ def range_expand(word):
 
 
 def glob_expand(word, root):
+    if word.startswith("/"):
+        # an absolute pattern: the same walk from the file system root
+        got = glob_expand(word[1:], "/")
+        return [word] if got == [word[1:]] else ["/" + g for g in got]
     parts = word.split("/")
 
     def rec(base, idx):
@@ -147,7 +165,9 @@ def expected_words(w, sb):
             return [sb.home + text[1:]]
         return [text]
     if kind == "glob":
-        return glob_expand(text, sb.work)
+        if text.startswith("~/"):
+            return glob_expand(sb.home + text[1:], sb.work)
+        return glob_expand(text.replace("ABS/", sb.work + "/", 1) if text.startswith("ABS/") else text, sb.work)
     raise ValueError(kind)
 
 
@@ -156,6 +176,9 @@ def write_word(w):
         return "'" + w["text"] + "'"
     if w["kind"] == "dq":
         return '"' + w["text"] + '"'
+    if w["kind"] == "glob" and w["text"].startswith("ABS/"):
+        # (C16 borrows this generator without a sandbox of this module: there the pattern stays relative)
+        return (_sb.work + w["text"][3:]) if _sb is not None else w["text"][4:]
     return w["text"]
 
 
@@ -319,8 +342,15 @@ def gen_word(rng):
 
 
 def gen_case(rng):
-    return {"words": [gen_word(rng) for _ in range(rng.randint(1, 4))], "pop": rng.randrange(len(POPS)),
-            "delivery": "for" if rng.random() < 0.25 else "argv"}
+    c = {"words": [gen_word(rng) for _ in range(rng.randint(1, 4))], "pop": rng.randrange(len(POPS)),
+         "delivery": "for" if rng.random() < 0.25 else "argv"}
+    if c["pop"] == DEEP:
+        # the deep population is there for patterns whose matches lie two and more levels down (relative, absolute, under ~)
+        for w in c["words"]:
+            if w["kind"] == "glob" or rng.random() < 0.3:
+                t = rng.choice(DEEP_PATTERNS)
+                w.update(kind="glob", text=t, feat="deep-pattern=" + t)
+    return c
 
 
 def _work(case):
